@@ -111,10 +111,16 @@ type hostPanic struct{ node int }
 
 func (h *hostPanic) Error() string { return fmt.Sprintf("host panic of node %d", h.node) }
 
-func (p *program) hostFunc(i int) api.GoModuleFunction {
+// hooks lets one run inject an action at the entry of every host function (history "hostclose").
+type hooks struct{ onHostEntry func() }
+
+func (p *program) hostFunc(i int, hk *hooks) api.GoModuleFunction {
 	t, s := p.tree, p.sigs[i]
 	children := t.children(i)
 	return api.GoModuleFunc(func(ctx context.Context, mod api.Module, stack []uint64) {
+		if hk.onHostEntry != nil {
+			hk.onHostEntry()
+		}
 		par := make([]uint64, len(s.P))
 		copy(par, stack[:len(s.P)])
 		acc := foldParams(s, par)
@@ -171,6 +177,12 @@ type runSpec struct {
 	//          listening to the same set; "other": ... listening to the complementary set;
 	// "cache": ... by another runtime sharing the compilation cache;
 	// "reopen": ... and that first CompiledModule was closed before the second compilation.
+	// Lifecycle histories (one compilation; the instance outlives its CompiledModule, which is
+	// documented as allowed):
+	// "closedcm": every CompiledModule (guest and host) is closed after instantiation, then the call runs;
+	// "hostclose": every CompiledModule is closed from inside the first host function entered during the call;
+	// "rtinst": modules are created with Runtime.InstantiateWithConfig / HostModuleBuilder.Instantiate
+	//          (no separate CompiledModule: closing the module, e.g. by an exit leaf, closes its code mid-call).
 	History string
 	Listen  bool   // false = no factory installed at all (baseline)
 	Mask    uint64 // listened nodes
@@ -253,20 +265,37 @@ func runCase(p *program, spec runSpec) (res runResult) {
 		return res
 	}
 
+	hk := &hooks{}
+	var compiled []wazero.CompiledModule
+	closeAll := func() {
+		for _, c := range compiled {
+			c.Close(ctx)
+		}
+		compiled = nil
+	}
+	if spec.History == "hostclose" {
+		hk.onHostEntry = closeAll
+	}
+
 	// host module
 	hb := rt.NewHostModuleBuilder("env")
 	nhost := 0
 	for i := range p.tree {
 		if p.tree.isHost(i) {
-			hb.NewFunctionBuilder().WithGoModuleFunction(p.hostFunc(i), apiTypes(p.sigs[i].P), apiTypes(p.sigs[i].R)).Export(hname(i))
+			hb.NewFunctionBuilder().WithGoModuleFunction(p.hostFunc(i, hk), apiTypes(p.sigs[i].P), apiTypes(p.sigs[i].R)).Export(hname(i))
 			nhost++
 		}
 	}
-	if nhost > 0 {
+	if nhost > 0 && spec.History == "rtinst" {
+		if _, err := hb.Instantiate(ctxB); err != nil {
+			return fail(err)
+		}
+	} else if nhost > 0 {
 		hc, err := hb.Compile(ctxB)
 		if err != nil {
 			return fail(err)
 		}
+		compiled = append(compiled, hc)
 		if _, err = rt.InstantiateModule(ctx, hc, wazero.NewModuleConfig().WithName("env")); err != nil {
 			return fail(err)
 		}
@@ -286,11 +315,20 @@ func runCase(p *program, spec runSpec) (res runResult) {
 			}
 			ca.Close(ctx)
 		}
-		cm, err := rt.CompileModule(ctxB, p.bins[l])
-		if err != nil {
-			panic(fmt.Errorf("harness: generated module rejected: %w", err))
+		var mod api.Module
+		var err error
+		if spec.History == "rtinst" {
+			// the context carries the factory: compilation happens inside
+			mod, err = rt.InstantiateWithConfig(ctxB, p.bins[l], wazero.NewModuleConfig().WithName(fmt.Sprintf("m%d", l)))
+		} else {
+			var cm wazero.CompiledModule
+			cm, err = rt.CompileModule(ctxB, p.bins[l])
+			if err != nil {
+				panic(fmt.Errorf("harness: generated module rejected: %w", err))
+			}
+			compiled = append(compiled, cm)
+			mod, err = rt.InstantiateModule(ctx, cm, wazero.NewModuleConfig().WithName(fmt.Sprintf("m%d", l)))
 		}
-		mod, err := rt.InstantiateModule(ctx, cm, wazero.NewModuleConfig().WithName(fmt.Sprintf("m%d", l)))
 		if l == 0 && p.start {
 			startErr = err
 		} else if err != nil {
@@ -299,6 +337,9 @@ func runCase(p *program, spec runSpec) (res runResult) {
 		if l == 0 {
 			m0 = mod
 		}
+	}
+	if spec.History == "closedcm" {
+		closeAll()
 	}
 	switch {
 	case p.start && startErr != nil:
